@@ -45,6 +45,9 @@ extern int verif_exc;
 #define ENSURES(name, ...) __CPROVER_ensures(__VA_ARGS__)
 #define REQUIRES(name, ...) __CPROVER_requires(__VA_ARGS__)
 
+/* witness clause: a requires clause only in the job that enforces fn (see runner.py) */
+#define WITNESS(fn, ...) WIT_##fn(__VA_ARGS__)
+
 /* ---- nondet sources and vacuity canary ---- */
 int nondet_int(void);
 unsigned nondet_unsigned(void);
